@@ -85,12 +85,11 @@ Definition typed_desc_op (o : desc_op) : Prop :=
   end.
 Definition typed_sig_op (o : sig_op) : Prop :=
   match o with
-  | SSetPTS v => v < 8589934592     (* SCTE35.SetPTS still stores s.pts un-truncated (residual finding, notes/findings/C09.md) *)
   | SSetCommandInfo _ ops => Forall typed_cmd_op ops
   | SSetDescriptors ds => Forall (Forall typed_desc_op) ds
   | SCmd o => typed_cmd_op o
   | SDesc _ o => typed_desc_op o
-  | _ => True                       (* SetTier / SetAdjustPTS of any size: truncated; SetAlignmentStuffing: a length, see fits *)
+  | _ => True                       (* SetTier / SetAdjustPTS / SetPTS of any size: truncated; SetAlignmentStuffing: a length, see fits *)
   end.
 
 (* ---------------- the width part of normal ---------------- *)
